@@ -27,6 +27,7 @@ type serverModel struct {
 	// through a table.
 	Dispatcher *ssa.Function
 	problems   []string
+	c          *core.Ctx
 }
 
 func (m *serverModel) hasDispatch() bool { return m.Global != nil || m.Dispatcher != nil }
@@ -116,7 +117,7 @@ func loadKinds(c *core.Ctx) (map[string]int64, map[int64]string) {
 }
 
 func loadServerModel(c *core.Ctx) *serverModel {
-	m := &serverModel{Handlers: map[int64]*ssa.Function{}}
+	m := &serverModel{Handlers: map[int64]*ssa.Function{}, c: c}
 	m.Kinds, m.KindNames = loadKinds(c)
 	sp := c.P.Pkg("ociserver")
 	if sp == nil {
